@@ -344,6 +344,9 @@ func TestRouting(t *testing.T) {
 				if _, ok := w.byModel[e.M]; ok {
 					continue
 				}
+				if len(c.Live()) >= 2 {
+					w.write(12) // the member that joins finds partitions whose backup copies hold data
+				}
 				m, err := c.AddMember()
 				if err != nil {
 					t.Fatalf("join: %v", err)
@@ -411,6 +414,17 @@ func TestRouting(t *testing.T) {
 			tw.Emit(trace.Ev{"t": "event", "ev": e.Ev, "m": e.M})
 			if e.Ev == "write" {
 				continue
+			}
+			if manual && e.Ev == "join" {
+				// the table the members hold once the join has been pushed and before any data has moved: partitions have
+				// previous owners and former backup owners that still hold data - the same clauses apply to it
+				if err := c.WaitPushFixpoint(8 * time.Second); err == nil {
+					if err := w.logStable(); err != nil {
+						t.Logf("sequence %d: %v", si+1, err)
+						failed = true
+						break
+					}
+				}
 			}
 			if err := c.WaitStable(15*time.Second, false); err != nil {
 				// liveness of stabilisation is observed with a time-out: inconclusive, not a violation
